@@ -132,4 +132,74 @@ theorem put_copy_sets (st : Store) (s : Nat) (l : List Nat) :
     (st.put s false l).1.sets = st.sets ++ [l] ∧ (st.put s false l).2 = st.sets.length := by
   simp [Store.put]
 
+theorem lookup_filter_ne (ps : List (Nat × Int)) (k k' : Nat) (h : k' ≠ k) :
+    List.lookup k' (ps.filter (fun kv => decide (kv.1 ≠ k))) = List.lookup k' ps := by
+  induction ps with
+  | nil => rfl
+  | cons p ps ih =>
+    obtain ⟨pk, pv⟩ := p
+    by_cases hp : pk = k
+    · subst hp
+      have hne : (k' == pk) = false := by simpa using h
+      rw [List.filter_cons]
+      simp only [ne_eq, not_true_eq_false, decide_false, Bool.false_eq_true, if_false, List.lookup, hne]
+      exact ih
+    · rw [List.filter_cons]
+      simp only [ne_eq, hp, not_false_eq_true, decide_true, if_true, List.lookup]
+      cases (k' == pk)
+      · exact ih
+      · rfl
+
+/-- `setattr(agent, k, v)` leaves every other attribute of the agent alone -/
+theorem setAttr_attr_other (a : Agent) (k k' : Nat) (v : Int) (h : k' ≠ k) : (a.setAttr k v).attr k' = a.attr k' := by
+  have hne : (k' == k) = false := by simpa using h
+  simp only [Agent.setAttr, Agent.attr, List.lookup, hne]
+  exact lookup_filter_ne a.attrs k k' h
+
+theorem foldl_min_spec (v : Int) (rest : List Int) :
+    rest.foldl min v ∈ v :: rest ∧ ∀ x ∈ v :: rest, rest.foldl min v ≤ x := by
+  induction rest generalizing v with
+  | nil => simp
+  | cons y rest ih =>
+    simp only [List.foldl_cons]
+    obtain ⟨h1, h2⟩ := ih (min v y)
+    constructor
+    · rcases List.mem_cons.mp h1 with h | h
+      · rw [h]
+        by_cases hvy : v ≤ y
+        · simp [Int.min_eq_left hvy]
+        · have : y ≤ v := by omega
+          simp [Int.min_eq_right this]
+      · exact List.mem_cons_of_mem _ (List.mem_cons_of_mem _ h)
+    · intro x hx
+      have hm := h2 (min v y) List.mem_cons_self
+      rcases List.mem_cons.mp hx with rfl | hx
+      · exact Int.le_trans hm (Int.min_le_left _ _)
+      · rcases List.mem_cons.mp hx with rfl | hx
+        · exact Int.le_trans hm (Int.min_le_right _ _)
+        · exact h2 x (List.mem_cons_of_mem _ hx)
+
+theorem foldl_max_spec (v : Int) (rest : List Int) :
+    rest.foldl max v ∈ v :: rest ∧ ∀ x ∈ v :: rest, x ≤ rest.foldl max v := by
+  induction rest generalizing v with
+  | nil => simp
+  | cons y rest ih =>
+    simp only [List.foldl_cons]
+    obtain ⟨h1, h2⟩ := ih (max v y)
+    constructor
+    · rcases List.mem_cons.mp h1 with h | h
+      · rw [h]
+        by_cases hvy : v ≤ y
+        · simp [Int.max_eq_right hvy]
+        · have : y ≤ v := by omega
+          simp [Int.max_eq_left this]
+      · exact List.mem_cons_of_mem _ (List.mem_cons_of_mem _ h)
+    · intro x hx
+      have hm := h2 (max v y) List.mem_cons_self
+      rcases List.mem_cons.mp hx with rfl | hx
+      · exact Int.le_trans (Int.le_max_left _ _) hm
+      · rcases List.mem_cons.mp hx with rfl | hx
+        · exact Int.le_trans (Int.le_max_right _ _) hm
+        · exact h2 x (List.mem_cons_of_mem _ hx)
+
 end Mesa.ASet
